@@ -51,10 +51,13 @@ def extract_box(dataset, dx, dy, dz, origin):
             )
             continue
         centered_pos = pos - origin
-        cx = (centered_pos.x <= dx * 0.5) & (centered_pos.x >= -dx * 0.5)
-        cy = (centered_pos.y <= dy * 0.5) & (centered_pos.y >= -dy * 0.5)
-        cz = (centered_pos.z <= dz * 0.5) & (centered_pos.z >= -dz * 0.5)
-        c = (cx & cy & cz).values
+        c = (centered_pos.x <= dx * 0.5) & (centered_pos.x >= -dx * 0.5)
+        # Positions of 1D and 2D outputs have fewer than three components
+        if centered_pos.y is not None:
+            c = c & (centered_pos.y <= dy * 0.5) & (centered_pos.y >= -dy * 0.5)
+        if centered_pos.z is not None:
+            c = c & (centered_pos.z <= dz * 0.5) & (centered_pos.z >= -dz * 0.5)
+        c = c.values
         if np.any(c):
             subdomain[name] = dataset[name][c]
 
